@@ -132,16 +132,29 @@ func buildProbe(out, pkg string) error {
 		return err
 	}
 	args := []string{"build", "-tags", "verif", "-ldflags", "-s -w"}
+	// a private module file next to the output (the harness's go.mod with the nri replacement
+	// pointing at the repository under test), so that concurrent checks cannot interfere
 	repo := os.Getenv("VERIF_REPO")
-	if repo != "" {
-		if rp, err := filepath.EvalSymlinks(repo); err == nil && rp != "/repo" {
-			alt := filepath.Join(os.Getenv("VERIF_BUILD"), "alt.mod")
-			if _, err := os.Stat(alt); err != nil {
-				return fmt.Errorf("VERIF_REPO=%s but %s is missing", repo, alt)
-			}
-			args = append(args, "-modfile", alt)
+	if repo == "" {
+		repo = "/repo"
+	}
+	if rp, err := filepath.EvalSymlinks(repo); err == nil {
+		repo = rp
+	}
+	mod, err := os.ReadFile(filepath.Join(hd, "go.mod"))
+	if err != nil {
+		return err
+	}
+	mf := out + ".mod"
+	if err := os.WriteFile(mf, []byte(strings.ReplaceAll(string(mod), "=> /repo", "=> "+repo)), 0o644); err != nil {
+		return err
+	}
+	if sum, err := os.ReadFile(filepath.Join(repo, "go.sum")); err == nil {
+		if err := os.WriteFile(out+".sum", sum, 0o644); err != nil {
+			return err
 		}
 	}
+	args = append(args, "-modfile", mf)
 	args = append(args, "-o", out, pkg)
 	ctx, cancel := context.WithTimeout(context.Background(), 10*time.Minute)
 	defer cancel()
